@@ -27,6 +27,7 @@ ASSUMPTIONS = [
 ]
 ENTS = ["pyscript.v0", "pyscript.v1", "pyscript.v2"]
 ATTRS = ["a1", "a2", "lst"]
+ODD_ATTRS = ["value", "new_attributes", "context", "var_name"]  # attribute names that are parameter names of state.set()
 
 
 def warm():
@@ -74,11 +75,11 @@ def generate(tier, seed, gated=frozenset()):
             elif k < 0.38:
                 st = {"op": "assign", "ent": ent, "v": gen_value(rng, True)}
             elif k < 0.46:
-                st = {"op": "assign_attr", "ent": ent, "attr": at, "v": gen_value(rng)}
+                st = {"op": "assign_attr", "ent": ent, "attr": at if rng.random() < 0.8 else rng.choice(ODD_ATTRS), "v": gen_value(rng)}
             elif k < 0.62:
                 st = {"op": "set", "ent": ent, "has_v": rng.random() < 0.7, "v": gen_value(rng, True), "new_attrs": ({a: gen_value(rng) for a in rng.sample(ATTRS, rng.randint(0, 2))} if rng.random() < 0.4 else None), "kw": ({a: gen_value(rng) for a in rng.sample(ATTRS, rng.randint(1, 2))} if rng.random() < 0.4 else {})}
             elif k < 0.67:
-                st = {"op": "setattr", "ent": ent, "attr": at, "v": gen_value(rng)}
+                st = {"op": "setattr", "ent": ent, "attr": at if rng.random() < 0.8 else rng.choice(ODD_ATTRS), "v": gen_value(rng)}
             elif k < 0.72:
                 st = {"op": "del", "ent": ent}
             elif k < 0.77:
